@@ -69,7 +69,7 @@ Theorem c09_modelled_functions_unchanged_u2f_ser : shapes_hold fn_shapes shapes_
 Proof. exact generated_shapes_u2f_ser. Qed.
 
 (* the third-party crates the model represents by hand are pinned at the versions it was written against *)
-Theorem c09_modelled_dependencies_pinned : deps_hold lock_versions cargo_deps = true.
+Theorem c09_modelled_dependencies_pinned : deps_hold repo_lock_present lock_versions harness_lock_versions cargo_deps = true.
 Proof. exact generated_deps. Qed.
 
 Eval vm_compute in "ASSUMPTIONS c09_parts". Print Assumptions c09_parts.
